@@ -253,6 +253,40 @@ class Builtins:
         s = it.iter_to_seq(v, fr)
         return SV(TSeq(s.ty.elem), s.term)
 
+    def b_dict_fromkeys(self, it, args, kwargs, fr):
+        """dict.fromkeys(seq) used for order-preserving de-duplication: represented by its key sequence
+        (iteration, len, `in` and list() of the dict are those of the key sequence).  r = first
+        occurrences of seq, in order: a strictly increasing position function, no duplicates, same members."""
+        if len(args) != 1:
+            raise Unsupported("dict.fromkeys with a value")
+        s = it.iter_to_seq(it.force(args[0], fr), fr)
+        r = it.fresh("dedup", s.term.sort())
+        pos = z3.Function(f"dedup_pos!{next(it.counter)}", z3.IntSort(), z3.IntSort())
+        k, k2, j = it.bound("dk", z3.IntSort()), it.bound("dk2", z3.IntSort()), it.bound("dj", z3.IntSort())
+        n, m = z3.Length(s.term), z3.Length(r)
+        it.assume(z3.And(m >= 0, m <= n))
+        it.assume(z3.ForAll([k], z3.Implies(z3.And(k >= 0, k < m), z3.And(pos(k) >= 0, pos(k) < n, r[k] == s.term[pos(k)]))))
+        it.assume(z3.ForAll([k, k2], z3.Implies(z3.And(k >= 0, k < k2, k2 < m), z3.And(pos(k) < pos(k2), r[k] != r[k2]))))
+        it.assume(z3.ForAll([k, j], z3.Implies(z3.And(k >= 0, k < m, j >= 0, j < pos(k)), s.term[j] != r[k])))
+        it.assume(z3.ForAll([j], z3.Implies(z3.And(j >= 0, j < n), z3.Exists([k], z3.And(k >= 0, k < m, pos(k) <= j, r[k] == s.term[j])))))
+        # the same membership fact per part of a concatenation (clean triggers: nth over a concatenation is
+        # rewritten by the solver and does not serve as a pattern)
+        def parts(t):
+            if z3.is_app_of(t, z3.Z3_OP_SEQ_CONCAT):
+                for c in t.children():
+                    yield from parts(c)
+            else:
+                yield t
+        ps = list(parts(s.term))
+        if len(ps) > 1:
+            for pt in ps:
+                if z3.is_app_of(pt, z3.Z3_OP_SEQ_UNIT):
+                    it.assume(z3.Exists([k], z3.And(k >= 0, k < m, r[k] == pt.arg(0))))
+                else:
+                    it.assume(z3.ForAll([j], z3.Implies(z3.And(j >= 0, j < z3.Length(pt)), z3.Exists([k], z3.And(k >= 0, k < m, r[k] == pt[j])))))
+        it.notes.add("dict.fromkeys(seq) is represented by its key sequence (first occurrences in order)")
+        return SV(TSeq(s.ty.elem), r)
+
     def b_tuple(self, it, args, kwargs, fr):
         if not args:
             return PyTuple([])
